@@ -320,3 +320,18 @@ package parser
 //@   ensures implies(!ca.SingleQuote, sub(result, len(ca.Name) + 1, len(ca.Name) + 2) == "\"" && sub(result, len(result) - 1, len(result)) == "\"" && inL(vtext(ca, result), NO_22_STAR))
 //@   ensures implies(ca.SingleQuote, sub(result, len(ca.Name) + 1, len(ca.Name) + 2) == "'" && sub(result, len(result) - 1, len(result)) == "'" && inL(vtext(ca, result), NO_27_STAR))
 //@   ensures html.UnescapeString(vtext(ca, result)) == ca.Value
+
+// The value text is produced by escapeConstantAttributeValue. Two facts about html.UnescapeString are assumed
+// (axiom lemmas, listed in the evidence; the bounded replay formats and re-parses templates built from character
+// references, & and both quote kinds): it inverts the replacement of every & by &amp;, and replacing a quote by its
+// character reference does not change what a text unescapes to.
+//@ lemma unesc_amp(v) [C08]: html.UnescapeString(strings.ReplaceAll(v, "&", "&amp;")) == v by axiom
+//@ lemma unesc_dq(w) [C08]: html.UnescapeString(strings.ReplaceAll(w, "\"", "&quot;")) == html.UnescapeString(w) by axiom
+//@ lemma unesc_sq(w) [C08]: html.UnescapeString(strings.ReplaceAll(w, "'", "&#39;")) == html.UnescapeString(w) by axiom
+//@ func escapeConstantAttributeValue [C08]
+//@   requires quote == "\"" || quote == "'"
+//@   ensures implies(quote == "\"", inL(result, NO_22_STAR)) && implies(quote == "'", inL(result, NO_27_STAR))
+//@   ensures html.UnescapeString(result) == old(value)
+//@   use before strings.ReplaceAll#1: unesc_amp(arg0)
+//@   use before strings.ReplaceAll#2: unesc_sq(arg0)
+//@   use before strings.ReplaceAll#3: unesc_dq(arg0)
